@@ -1,6 +1,6 @@
 (* C17: generated code is closed and binds every type by identity. *)
 From Coq Require Import List String Bool NArith.
-From Verif Require Import Closed ClosedProofs NsBind Binding.
+From Verif Require Import Closed ClosedProofs NsBind Binding Render.
 Import ListNotations.
 
 (* A program accepted by the analysis never raises NameError / UnboundLocalError, and never an
@@ -195,3 +195,14 @@ Proof.
   split; [| split; [reflexivity | vm_compute; reflexivity]].
   intros n o1 o2 [A | []] [B | []]. inversion A; inversion B; congruence.
 Qed.
+
+(* ---------------------------------------------------------------- rendering (model of type_name, compared with the implementation each run) *)
+Theorem C17_render_named : forall nn m q, render nn (RNamed m q) = (m ++ "." ++ q)%string.
+Proof. exact render_named. Qed.
+Print Assumptions C17_render_named.
+
+(* the chain (root :: path) that C17_binding / check_closed resolve for a class is the dot-split of its rendering *)
+Theorem C17_render_chain : forall nn m q,
+  split_dots (render nn (RNamed m q)) "" = (split_dots m "" ++ split_dots q "")%list.
+Proof. exact render_chain. Qed.
+Print Assumptions C17_render_chain.
